@@ -42,7 +42,7 @@ package age
 //@   modifies nothing
 
 //@ func Decrypt(src, identities) (rd, err)
-//@   requires forall j in 0..len(identities) :: identities[j] != nil
+//@   requires src != nil && (forall j in 0..len(identities) :: identities[j] != nil)
 //@   loop 1 invariant -1 <= rangeindex && rangeindex < len(hdr.Recipients) && len(stanzas) == rangeindex+1
 //@   loop 1 invariant#copy disjoint(stanzas, hdr.Recipients) && (forall j in 0..rangeindex+1 :: stanzas[j] == hdr.Recipients[j])     [C01]
 //@   loop 1 decreases len(hdr.Recipients) - rangeindex
@@ -95,6 +95,8 @@ package age
 //@   ensures#notsize len(key) == 32 && len(ciphertext) == size + 16 ==> err != errIncorrectCiphertextSize
 //@   fresh pt when err == nil && len(pt) > 0
 //@   modifies nothing
+
+//@ global digitsRe init "^[1-9][0-9]*$"     [C10 C14]
 
 //@ const X25519LABEL := "age-encryption.org/v1/X25519"
 //@ const SCRYPTLABEL := "age-encryption.org/v1/scrypt"
